@@ -21,7 +21,7 @@ def mc(module, quick, thorough=None, **kw):
 # design models the property rests on (quick: smaller bounds; thorough: the full bounds)
 MC = {
     "C01": [mc("WM", "MC_WM_k4"), mc("WM", "MC_WM_k4_long", tiers=("thorough",)), mc("RSQ", "MC_RSQ_bs2_quick", "MC_RSQ_bs2_deep"), mc("RSQ", "MC_RSQ_bs4_quick", "MC_RSQ_bs4_deep")],
-    "C02": [mc("HuffWM", "MC_HuffWM_k4_quick", "MC_HuffWM_k4"), mc("RSQ", "MC_RSQ_bs2_quick", "MC_RSQ_bs2_deep")],
+    "C02": [mc("HuffWM", "MC_HuffWM_k4_quick", "MC_HuffWM_k4"), mc("HuffWM", "MC_HuffWM_k4_equiv_finished", tiers=("thorough",)), mc("RSQ", "MC_RSQ_bs2_quick", "MC_RSQ_bs2_deep")],
     "C03": [mc("WM", "MC_WM_k2"), mc("HuffWM", "MC_HuffWM_k2_quick", "MC_HuffWM_k2"), mc("RSBin", "MC_RSBin_wide_quick", "MC_RSBin_wide_deep")],
     "C10": [mc("MC_Clauses", "MC_Clauses_quick", "MC_Clauses", workers=4)],
     "C04": [mc("MC_Clauses", "MC_Clauses_quick", "MC_Clauses", workers=4), mc("RSQ", "MC_RSQ_bs2_quick", "MC_RSQ_bps4"), mc("RSBin", "MC_RSBin_narrow_quick", "MC_RSBin_narrow_deep"), mc("DArr", "MC_DArr_quick", "MC_DArr_deep"),
